@@ -614,6 +614,21 @@ def run(rep, tier, seed, only=None):
                 for B in (0, 1, 4):
                     cuts_cfg = {"use_prephasing": True, "block_cut_sensitivity": B, "ignore_read_groups": True, "_ploidy": 4, "_bam": os.path.join(rd, "polyploid.cuts.bam")}
                     configs.append((os.path.join(rd, "polyploid.cuts.vcf"), cuts_cfg, None))
+                # the same instance with the first five variants left without pre-phasing (the pre-phased variants are a
+                # proper subset of the phasable ones)
+                part = os.path.join(P2, "cuts_partly_prephased.vcf")
+                nrec = 0
+                with open(os.path.join(rd, "polyploid.cuts.vcf")) as fi, open(part, "w") as fo:
+                    for line in fi:
+                        if not line.startswith("#"):
+                            nrec += 1
+                            if nrec <= 5:
+                                t = line.rstrip("\n").split("\t")
+                                t[9] = "/".join(sorted(t[9].split("|")))
+                                line = "\t".join(t) + "\n"
+                        fo.write(line)
+                for B in (0, 1, 3):
+                    configs.append((part, {"use_prephasing": True, "block_cut_sensitivity": B, "ignore_read_groups": True, "_ploidy": 4, "_bam": os.path.join(rd, "polyploid.cuts.bam")}, None))
             # fourth configuration: two blocks whose threaded haplotypes have to be forced onto the genotype (see prepare)
             configs.append((files["E"]["vcf"], {"_ploidy": 2, "_bam": files["E"]["bam"]}, None))
             stock = alg.Pool
